@@ -405,8 +405,18 @@ func (w *world) byzPropose() bool {
 		var bi blockInfo
 		reuse := len(w.blocks[h]) > 0 && rapid.IntRange(0, 3).Draw(w.t, "reuse") == 0
 		var stale *blockInfo
-		if !reuse && rapid.IntRange(0, 5).Draw(w.t, "stale") == 0 {
-			stale = w.staleBlock(like, h)
+		if !reuse {
+			switch rapid.IntRange(0, 7).Draw(w.t, "stale") {
+			case 0:
+				stale = w.staleBlock(like, h)
+			case 1:
+				if c := w.forgedLastCommit(like, h); c != nil {
+					tx := types.Tx(fmt.Sprintf("byz-flc-%d-%d-%d", h, r, len(w.net.Pool)))
+					if b, ps := w.net.AltBlockWithCommit(like, pk, []types.Tx{tx}, c); b != nil {
+						stale = &blockInfo{types.BlockID{Hash: b.Hash(), PartSetHeader: ps.Header()}, b, ps}
+					}
+				}
+			}
 		}
 		if stale != nil {
 			bi = *stale
@@ -531,7 +541,7 @@ func (w *world) byzMaj23() bool {
 func (w *world) byzReplayEquivocation() bool {
 	var cands []*Packet
 	for _, p := range w.net.Pool {
-		if !p.Byz || (p.Kind != "prevote" && p.Kind != "precommit") || p.Block == "" {
+		if !p.Byz || (p.Kind != "prevote" && p.Kind != "precommit") || p.Block == "nil" {
 			continue
 		}
 		for _, q := range w.net.Pool {
@@ -577,7 +587,7 @@ func (w *world) byzRelabel() bool {
 	}
 	var cands []*Packet
 	for _, p := range w.net.Pool {
-		if (p.Kind == "prevote" || p.Kind == "precommit") && p.Block != "" {
+		if (p.Kind == "prevote" || p.Kind == "precommit") && p.Block != "nil" {
 			cands = append(cands, p)
 		}
 	}
@@ -1141,6 +1151,96 @@ func (w *world) playHeight(shadow *Shadow, h int64, maxRounds int32) {
 	}
 }
 
+// forgedLastCommit assembles, from votes that were REALLY signed at height h-1, a LastCommit for the block decided
+// there that must not pass: the nil precommits of a failed round relabelled as the commit of the decided block, the
+// genuine commit thinned out to at most two thirds, or the precommits of the deciding round with some slots replaced
+// by the same validators' nil precommits of another round.
+func (w *world) forgedLastCommit(like *Node, h int64) *types.Commit {
+	prev := h - 1
+	if prev < w.net.Cfg.InitialHeight {
+		return nil
+	}
+	meta := like.BlockStore.LoadBlockMeta(prev)
+	seen := like.BlockStore.LoadSeenCommit(prev)
+	if meta == nil || seen == nil {
+		return nil
+	}
+	vals := like.CS.VerifSMState().LastValidators
+	if vals == nil || len(seen.Signatures) != vals.Size() {
+		return nil
+	}
+	// genuine nil precommits of height prev, by round and validator index
+	nils := map[int32]map[int32]*types.Vote{}
+	for _, p := range w.net.Pool {
+		if p.Kind != "precommit" || p.H != prev || p.Block != "nil" {
+			continue
+		}
+		vm, ok := p.Msg.(*consensus.VoteMessage)
+		if !ok || !vm.Vote.BlockID.IsZero() {
+			continue
+		}
+		idx, val := vals.GetByAddress(vm.Vote.ValidatorAddress)
+		if val == nil || idx != vm.Vote.ValidatorIndex {
+			continue
+		}
+		if nils[p.R] == nil {
+			nils[p.R] = map[int32]*types.Vote{}
+		}
+		nils[p.R][idx] = vm.Vote
+	}
+	var rounds []int32
+	for r := range nils {
+		rounds = append(rounds, r)
+	}
+	sort.Slice(rounds, func(i, j int) bool { return rounds[i] < rounds[j] })
+	mode := rapid.SampledFrom([]string{"nil-round", "nil-round", "thin", "mixed"}).Draw(w.t, "flc.mode")
+	if len(rounds) == 0 && mode != "thin" {
+		mode = "thin"
+	}
+	sigs := make([]types.CommitSig, vals.Size())
+	round := seen.Round
+	switch mode {
+	case "nil-round":
+		round = rounds[rapid.IntRange(0, len(rounds)-1).Draw(w.t, "flc.round")]
+		for i := range sigs {
+			sigs[i] = types.NewCommitSigAbsent()
+			if v := nils[round][int32(i)]; v != nil {
+				sigs[i] = types.CommitSig{BlockIDFlag: types.BlockIDFlagNil, ValidatorAddress: v.ValidatorAddress, Timestamp: v.Timestamp, Signature: v.Signature}
+			}
+		}
+	case "thin":
+		copy(sigs, seen.Signatures)
+		var acc int64
+		total := vals.TotalVotingPower()
+		for _, i := range rapid.Permutation(seqInts(len(sigs))).Draw(w.t, "flc.order") {
+			p := vals.Validators[i].VotingPower
+			if sigs[i].ForBlock() && (acc+p)*3 <= total*2 {
+				acc += p
+				continue
+			}
+			sigs[i] = types.NewCommitSigAbsent()
+		}
+	case "mixed":
+		copy(sigs, seen.Signatures)
+		r := rounds[rapid.IntRange(0, len(rounds)-1).Draw(w.t, "flc.round")]
+		for i := range sigs {
+			if v := nils[r][int32(i)]; v != nil && rapid.Bool().Draw(w.t, "flc.swap") {
+				sigs[i] = types.CommitSig{BlockIDFlag: types.BlockIDFlagNil, ValidatorAddress: v.ValidatorAddress, Timestamp: v.Timestamp, Signature: v.Signature}
+			}
+		}
+	}
+	lib.Class(w.opt.Test, "forged-lastcommit:"+mode)
+	return types.NewCommit(prev, round, meta.BlockID, sigs)
+}
+
+func seqInts(n int) []int {
+	out := make([]int, n)
+	for i := range out {
+		out[i] = i
+	}
+	return out
+}
+
 // staleBlock returns a block of the previous height: the one node `like` stored, or another one proposed there.
 func (w *world) staleBlock(like *Node, h int64) *blockInfo {
 	if h-1 < w.net.Cfg.InitialHeight {
@@ -1166,9 +1266,12 @@ func (w *world) structuredByzProposal(h int64, r int32, pk int, pat pattern) {
 	if like == nil {
 		return
 	}
-	strat := rapid.SampledFrom([]string{"none", "new", "new", "new", "new", "reuse", "two", "two", "invalid", "stale"}).Draw(w.t, "bprop.strat")
+	strat := rapid.SampledFrom([]string{"none", "new", "new", "new", "new", "reuse", "two", "two", "invalid", "stale", "forged-lastcommit"}).Draw(w.t, "bprop.strat")
 	if f, ok := w.forced["bprop.strat"]; ok {
 		strat = f
+	}
+	if f := os.Getenv("VERIF_BPROP"); f != "" {
+		strat = f // debugging aid
 	}
 	if f, ok := w.forced[fmt.Sprintf("r%d.bprop", r)]; ok {
 		strat = f
@@ -1209,6 +1312,15 @@ func (w *world) structuredByzProposal(h int64, r int32, pk int, pat pattern) {
 		if bi := mk(0, true); bi != nil {
 			w.net.InjectProposal(pk, h, r, pol, bi.block, bi.parts, nil, true)
 			w.stats.byzProposals++
+		}
+	case "forged-lastcommit":
+		if c := w.forgedLastCommit(like, h); c != nil {
+			tx := types.Tx(fmt.Sprintf("byz-flc-%d-%d-%d", h, r, len(w.net.Pool)))
+			if b, ps := w.net.AltBlockWithCommit(like, pk, []types.Tx{tx}, c); b != nil {
+				w.net.InjectProposal(pk, h, r, pol, b, ps, nil, true)
+				w.stats.byzProposals++
+				w.stats.invalidBlocks++
+			}
 		}
 	case "stale":
 		// the block decided (or merely proposed) at the PREVIOUS height, offered again for this one
@@ -1259,7 +1371,7 @@ func RunStructured(t *rapid.T, opt Options) {
 	defer shadow.Close()
 	w := &world{victim: -1, decider: -1, opt: opt, t: t, s: s, net: net, blocks: map[int64][]blockInfo{}}
 	heights := rapid.IntRange(1, 2).Draw(t, "heights")
-	gadget := rapid.IntRange(0, 7).Draw(t, "stalePolkaGadget") == 0 || os.Getenv("VERIF_GADGET") != ""
+	gadget := rapid.IntRange(0, 3).Draw(t, "stalePolkaGadget") == 0 || os.Getenv("VERIF_GADGET") != ""
 	gadgetR0 := -1
 	for h := int64(1); h <= int64(heights); h++ {
 		rounds := rapid.Int32Range(2, 5).Draw(t, "rounds")
@@ -1271,31 +1383,56 @@ func RunStructured(t *rapid.T, opt Options) {
 			gadgetR0 = r0
 			f := func(r int, k, v string) { w.forced[fmt.Sprintf("r%d.%s", r, k)] = v }
 			w.forced = map[string]string{}
-			f(r0, "prop", "all")
-			f(r0, "prevote", "victim-only")
-			f(r0, "fpv.strat", "two-faced")
-			f(r0, "precommit", "partial-all")
-			f(r0, "fpc.strat", "nil-all")
-			f(r0+1, "prop", "all")
-			f(r0+1, "bprop", "new")
-			f(r0+1, "prevote", "partial-all")
-			f(r0+1, "fpv.strat", "follow")
-			f(r0+1, "precommit", "partial-all")
-			f(r0+1, "fpc.strat", "nil-all")
-			f(r0+2, "prop", "all")
-			f(r0+2, "bprop", "reuse")
-			f(r0+2, "prevote", "victim+decider")
-			f(r0+2, "fpv.strat", "follow")
-			f(r0+2, "precommit", "decider-only")
-			f(r0+2, "fpc.strat", "two-faced")
-			f(r0+2, "stale-late", "victim")
-			f(r0+3, "prop", "all")
-			f(r0+3, "bprop", "new")
-			f(r0+3, "prevote", "all")
-			f(r0+3, "fpv.strat", "follow")
-			f(r0+3, "precommit", "all")
-			f(r0+3, "fpc.strat", "follow")
-			rounds = int32(r0 + 5)
+			if rapid.Bool().Draw(t, "gadgetVariant") || os.Getenv("VERIF_GADGET") == "relock" {
+				// second scripted prefix "polka for the locked block without the proposal": victim and decider lock B in
+				// r0 and the decider alone decides it; in r0+1 B is offered again to everyone but the victim, the polka
+				// for B reaches the victim (which holds no proposal of that round); in r0+2 a fresh block is offered
+				f(r0, "prop", "all")
+				f(r0, "prevote", "victim+decider")
+				f(r0, "fpv.strat", "two-faced")
+				f(r0, "precommit", "decider-only")
+				f(r0, "fpc.strat", "two-faced")
+				f(r0+1, "prop", "all-but-victim")
+				f(r0+1, "bprop", "reuse")
+				f(r0+1, "prevote", "all")
+				f(r0+1, "fpv.strat", "follow")
+				f(r0+1, "precommit", "partial-all")
+				f(r0+1, "fpc.strat", "nil-all")
+				f(r0+2, "prop", "all")
+				f(r0+2, "bprop", "new")
+				f(r0+2, "prevote", "all")
+				f(r0+2, "fpv.strat", "follow")
+				f(r0+2, "precommit", "all")
+				f(r0+2, "fpc.strat", "follow")
+				rounds = int32(r0 + 4)
+				lib.Class(test, "gadget:variant-relock-without-proposal")
+			} else {
+				f(r0, "prop", "all")
+				f(r0, "prevote", "victim-only")
+				f(r0, "fpv.strat", "two-faced")
+				f(r0, "precommit", "partial-all")
+				f(r0, "fpc.strat", "nil-all")
+				f(r0+1, "prop", "all")
+				f(r0+1, "bprop", "new")
+				f(r0+1, "prevote", "partial-all")
+				f(r0+1, "fpv.strat", "follow")
+				f(r0+1, "precommit", "partial-all")
+				f(r0+1, "fpc.strat", "nil-all")
+				f(r0+2, "prop", "all")
+				f(r0+2, "bprop", "reuse")
+				f(r0+2, "prevote", "victim+decider")
+				f(r0+2, "fpv.strat", "follow")
+				f(r0+2, "precommit", "decider-only")
+				f(r0+2, "fpc.strat", "two-faced")
+				f(r0+2, "stale-late", "victim")
+				f(r0+3, "prop", "all")
+				f(r0+3, "bprop", "new")
+				f(r0+3, "prevote", "all")
+				f(r0+3, "fpv.strat", "follow")
+				f(r0+3, "precommit", "all")
+				f(r0+3, "fpc.strat", "follow")
+				rounds = int32(r0 + 5)
+			}
 		}
 		w.playHeight(shadow, h, rounds)
 		w.forced = nil
